@@ -53,4 +53,9 @@ def parts(prop: str, kt: bool = True):
         out.append(_compose.Part("pm_kt", lambda ctx: pm_trace.run_kt(ctx, 300, 6000), _replay, theorems=ths, modules=LEAN_MODULES))
     known = pm_trace.KNOWN if prop == "C11" else None
     out.append(_compose.Part("pm_ko", lambda ctx: pm_trace.run_ko(_Only(ctx, prop), 0.6), _replay, theorems=ths, modules=LEAN_MODULES, known=known))
+    try:
+        from . import pmgen_parts
+        out += pmgen_parts.parts(prop)
+    except ImportError:
+        pass
     return out
